@@ -21,8 +21,8 @@ theorem clockStep_highWater (p : Nat × Nat) (o : Op) :
   case tickback ms => split <;> omega
   all_goals omega
 
-theorem clientData_clock (d : Daemon) (i : Id) (k : Kind) :
-    (clientData d i k).now = d.now ∧ (clientData d i k).back = d.back := by
+theorem clientData_clock (d : Daemon) (i : Id) (k : Kind) (n : Nat) :
+    (clientData d i k n).now = d.now ∧ (clientData d i k n).back = d.back := by
   unfold clientData
   dsimp only
   repeat' split
@@ -47,10 +47,14 @@ theorem step_clock (v : Variant) (d : Daemon) (o : Op) (r : Daemon × List Event
   | arrive i => simp only [step] at hr; split at hr <;> cases hr; rfl
   | send i =>
     simp only [step] at hr; split at hr <;> cases hr
-    have := clientData_clock d i Kind.post; simp only [clockStep]; rw [this.1, this.2]
+    have := clientData_clock d i Kind.post 1; simp only [clockStep]; rw [this.1, this.2]
+  | sendn i k =>
+    simp only [step] at hr; split at hr <;> cases hr
+    have := clientData_clock d i Kind.post k; simp only [clockStep]; rw [this.1, this.2]
+  | slow i => simp only [step] at hr; split at hr <;> cases hr; rfl
   | sendp i =>
     simp only [step] at hr; split at hr <;> cases hr
-    have := clientData_clock d i Kind.frag; simp only [clockStep]; rw [this.1, this.2]
+    have := clientData_clock d i Kind.frag 1; simp only [clockStep]; rw [this.1, this.2]
   | cclose i =>
     simp only [step] at hr; split at hr <;> cases hr
     have := clientClose_clock d i; simp only [clockStep]; rw [this.1, this.2]
